@@ -14,7 +14,9 @@ PStr(s) == PrintS(CallE("_p", <<StrE(s)>>))
 
 (* template-level definitions before K *)
 Pres == { <<>>, <<SetS("x", IntE(1))>>, <<SetS("y", IntE(2))>>, <<SetS("x", IntE(1)), SetS("y", IntE(2))>>,
-          <<SetS("loop", IntE(3))>>, <<SetS("k", IntE(4)), SetS("x", IntE(1))>>, <<SetS("w", IntE(6)), SetS("x", StrE("s"))>> }
+          <<SetS("loop", IntE(3))>>, <<SetS("k", IntE(4)), SetS("x", IntE(1))>>, <<SetS("w", IntE(6)), SetS("x", StrE("s"))>>,
+          (* a variable that exists and holds null exists: a set in a loop body updates it *)
+          <<SetS("w", NullE)>>, <<SetS("x", NullE), SetS("u", NullE)>> }
 
 (* bodies: <<statements, names assigned by set>> *)
 BodiesFor(vars) ==
